@@ -79,7 +79,7 @@ func genSvc(r *kit.Rand, size int) (mode string, ops []string) {
 
 // genNode: points for one alert node over 1–3 ids.
 func genNode(r *kit.Rand, size int, cfgNo int) (mode string, ops []string) {
-	cfgs := [][4]int{{1, 1, 0, 0}, {1, 0, 0, 0}, {0, 1, 0, 0}, {1, 1, 1, 0}, {1, 1, 0, 1}, {1, 0, 1, 0}, {0, 1, 1, 1}, {1, 1, 1, 1}}
+	cfgs := [][4]int{{1, 1, 0, 0}, {1, 0, 0, 0}, {1, 1, 1, 0}, {0, 1, 0, 0}, {1, 1, 1, 0}, {1, 1, 0, 1}, {1, 0, 1, 0}, {0, 1, 1, 1}, {1, 1, 1, 1}, {1, 1, 1, 0}}
 	c := cfgs[cfgNo%len(cfgs)]
 	mode = fmt.Sprintf("mode node %d %d %d %d", c[0], c[1], c[2], c[3])
 	nI := r.Range(1, 3)
